@@ -9,11 +9,16 @@ one() {
   d=$1; tmp=$2
   s=$(basename $d); p=$(python3 -c "import json;print(json.load(open('$d/meta.json'))['breaks_property'])")
   if ! git -C /repo apply --check $d/patch.diff 2>/dev/null; then echo "$s $p NOAPPLY patch does not apply to /repo HEAD" > $tmp/$s; return; fi
-  r=$(/verif/lib/seedtest.sh $p $d/patch.diff 2>&1 | grep -v KNOWN-FINDING | tail -4)
-  if echo "$r" | grep -q "^VIOLATION property=$p"; then
-    echo "$s $p CAUGHT $(echo "$r" | grep '^violation:' | head -1 | cut -c1-160)" > $tmp/$s
-  elif echo "$r" | grep -q "exit=0"; then echo "$s $p MISSED" > $tmp/$s
-  else echo "$s $p ERROR $(echo "$r" | tr '\n' ' ' | cut -c1-200)" > $tmp/$s; fi
+  # the property's own check first, then any other check the archive entry names
+  others=$(python3 -c "
+import json,re;m=json.load(open('$d/meta.json'));print(' '.join(dict.fromkeys(c for c in re.findall(r'\\./check (C\\d\\d)', m['check_result']) if c != '$p')))")
+  for c in $p $others; do
+    r=$(/verif/lib/seedtest.sh $c $d/patch.diff 2>&1 | grep -v KNOWN-FINDING | tail -4)
+    if echo "$r" | grep -q "^VIOLATION property=$c"; then
+      echo "$s $p CAUGHT by-$c $(echo "$r" | grep '^violation:' | head -1 | cut -c1-160)" > $tmp/$s; return
+    elif ! echo "$r" | grep -q "exit=0"; then echo "$s $p ERROR ($c) $(echo "$r" | tr '\n' ' ' | cut -c1-200)" > $tmp/$s; return; fi
+  done
+  echo "$s $p MISSED (checks tried: $p $others)" > $tmp/$s
 }
 export -f one
 ls -d /verif/seeded/S* | sort -t S -k2 -n | xargs -P $par -I{} bash -c "one {} $tmp"
